@@ -292,7 +292,8 @@ func runRoundtripMode() {
 		}
 		sb.WriteString("|END")
 		emit(fmt.Sprintf("sd decode %s %s %s", schemaID, root.name, hx(eq)), sb.String())
-		outBytes += 2*len(eq) + sb.Len()
+		emitReencode(root.name, hx(eq))
+		outBytes += 2*len(eq) + sb.Len() // (the se reencode line repeats the stream; the budget is left as it was so that the generated cases do not shift)
 		refs := dictRefs(root, res.truths)
 		stats["dict-refs"] += refs
 		if len(res.truths) >= 2 && unmodifiedSomewhere(root, oc.masks) && refs > 0 {
